@@ -74,6 +74,15 @@ Theorem run_state_confined :
 Proof. exact (all_confined per_run_owners guarded_fields inventory gen_run_writes Inst_Locks.run_writes_confined). Qed.
 Print Assumptions run_state_confined.
 
+Theorem run_arguments_read_only :
+  forall w, In w gen_run_writes -> caller_owned (snd (fst w)) = false.
+Proof.
+  pose proof Inst_Locks.run_arguments_read_only as H.
+  apply andb_prop in H. destruct H as [H _]. apply andb_prop in H. destruct H as [H _].
+  rewrite forallb_forall in H. intros w Hw. specialize (H w Hw). destruct (caller_owned (snd (fst w))); [discriminate | reflexivity].
+Qed.
+Print Assumptions run_arguments_read_only.
+
 (* ---------------------------------------------------------------- the hypotheses are satisfiable, the notions not vacuous *)
 Example guard_ex (f : field) : fclass := if N.eqb f 0 then Guarded 7 else Frozen.
 
